@@ -20,8 +20,26 @@ def _isotable():
     return isotable.generate()
 
 
+def _catalogue():
+    from . import catalogue
+    return catalogue.generate_catalogue()
+
+
+def _prefixes():
+    from . import catalogue
+    return catalogue.generate_prefixes()
+
+
+def _doctables():
+    from . import catalogue
+    return catalogue.generate_doctables()
+
+
 GENERATORS = [
     ('RoundingImpl', _rounding),
     ('TempTable', _temptable),
     ('IsoTable', _isotable),
+    ('Catalogue', _catalogue),
+    ('Prefixes', _prefixes),
+    ('DocTables', _doctables),
 ]
